@@ -1,0 +1,19 @@
+//go:build verif && amd64 && go1.17 && !go1.27
+// +build verif,amd64,go1.17,!go1.27
+
+package verifx
+
+import (
+	"github.com/bytedance/sonic/internal/cpu"
+	"github.com/bytedance/sonic/internal/native"
+)
+
+// DispatchRow mirrors native.VerifDispatchRow.
+type DispatchRow = native.VerifDispatchRow
+
+// Dispatch reports, for every variable of the SIMD dispatch table, its current value and the value offered by
+// the avx2 and sse packages (both packages are loaded by this package's init).
+func Dispatch() []DispatchRow { return native.VerifDispatch() }
+
+// HasAVX2 is the CPU/SONIC_MODE decision the dispatcher used.
+func HasAVX2() bool { return cpu.HasAVX2 }
